@@ -394,6 +394,7 @@ func (u *upstream) loopRefreshSlots() {
 		case <-time.After(slotsRefFreq):
 		case <-u.slotsRefreshCh:
 		}
+		verifhook.At("upstream.loopRefreshSlots.picked", u)
 
 		u.refreshSlots()
 
@@ -473,6 +474,7 @@ func (u *upstream) doSlotsRefresh() error {
 			// NOTE: it's safe in x86-64 platform.
 			u.slots[slot] = inst
 		}
+		verifhook.At2("upstream.doSlotsRefresh.assigned", u, inst)
 	}
 	return nil
 }
